@@ -13,7 +13,7 @@ import ast
 
 from ..core.cfg import CFG
 from ..core.loader import AnalysisError, Project
-from .common import const_value, local_names, own_analysis
+from .common import const_value, expand_locals, local_names, own_analysis
 
 MOD = "persim.gromov_hausdorff"
 RNG_PREFIXES = ("numpy.random.", "random.", "secrets.", "os.urandom")
@@ -26,6 +26,73 @@ def _calls(project, fi, target):
         if isinstance(n, ast.Call) and project.resolve(fi.module, n.func, locs) == target:
             out.append(n)
     return out
+
+
+def _tri_form(project, fi, locs, e):
+    """an index pair for a triangle of a square matrix as (kind, k, swapped): np.triu_indices / np.tril_indices(_from) with a
+    constant offset k enumerate their positions row by row; X[::-1] / (X[1], X[0]) exchange rows and columns position by
+    position (the enumeration order stays that of X)"""
+    if isinstance(e, ast.Subscript) and isinstance(e.slice, ast.Slice) and e.slice.lower is None and e.slice.upper is None \
+            and e.slice.step is not None and const_value(e.slice.step) == -1:
+        inner = _tri_form(project, fi, locs, e.value)
+        return None if inner is None else (inner[0], inner[1], not inner[2])
+    if isinstance(e, ast.Tuple) and len(e.elts) == 2 and all(isinstance(x, ast.Subscript) for x in e.elts):
+        a, b = e.elts
+        if ast.unparse(a.value) == ast.unparse(b.value) and const_value(a.slice) in (0, 1) and const_value(b.slice) in (0, 1) \
+                and const_value(a.slice) != const_value(b.slice):
+            inner = _tri_form(project, fi, locs, a.value)
+            if inner is None:
+                return None
+            return inner if const_value(a.slice) == 0 else (inner[0], inner[1], not inner[2])
+    if isinstance(e, ast.Call):
+        t = project.resolve(fi.module, e.func, locs)
+        if t in ("numpy.triu_indices", "numpy.tril_indices", "numpy.triu_indices_from", "numpy.tril_indices_from"):
+            k = e.args[1] if len(e.args) > 1 else _kw(e, "k")
+            kv = const_value(k) if k is not None else 0
+            if kv is None:
+                return None
+            return ("U" if "triu" in t else "L", kv, False)
+    return None
+
+
+def _tri_copy(project, fi, locs, f, n, m):
+    """`M[A] = M[B]` / `M[A] = M.T[B]` with A, B triangle index pairs: ("ok" | "bad", why), or None when the forms are not
+    triangle index pairs"""
+    tgt, v = n.targets[0], n.value
+    if not isinstance(v, ast.Subscript):
+        return None
+    A = _tri_form(project, fi, locs, expand_locals(f, tgt.slice))
+    B = _tri_form(project, fi, locs, expand_locals(f, v.slice))
+    if A is None or B is None:
+        return None
+    src = v.value
+    transposed = False
+    if isinstance(src, ast.Attribute) and src.attr == "T":
+        src, transposed = src.value, True
+    if not isinstance(src, ast.Name):
+        return None
+    if transposed:
+        B = (B[0], B[1], not B[2])
+    if src.id != m:
+        return "bad", f"`{ast.unparse(n)}` fills `{m}` from another matrix (`{src.id}`)"
+    # positions written: strictly below the diagonal (or on it), never above
+    kind, k, sw = A
+    below = (kind == "L" and not sw and k in (-1, 0)) or (kind == "U" and sw and k in (0, 1))
+    if not below:
+        return "bad", (f"`{ast.unparse(n)}` writes positions {('j−i ≤ ' if kind == 'L' else 'j−i ≥ ') + str(k)}"
+                       f"{' (rows and columns exchanged)' if sw else ''}: not exactly the entries below the diagonal — entries "
+                       f"above it are overwritten or the first sub-diagonal is never filled")
+    if B == (kind, k, not sw):
+        return "ok", (f"`{ast.unparse(n)[:80]}`: the t-th position written is the transpose of the t-th position read, for every t, "
+                      f"and the positions written are the entries below the diagonal")
+    # same set of transposed positions but enumerated in another order?
+    Bkind, Bk, Bsw = B
+    upper_set = (Bkind == "U" and not Bsw) or (Bkind == "L" and Bsw)
+    if upper_set:
+        return "bad", (f"`{ast.unparse(n)[:80]}` pairs the t-th lower-triangle position with the t-th upper-triangle position of "
+                       f"two different enumerations (one row by row, the other column by column): they are transposes of each "
+                       f"other only for N ≤ 3; from 4 graphs on entry (2,1) receives the bounds of pair (0,3)")
+    return "bad", f"`{ast.unparse(n)[:80]}` does not read the transposed positions of the entries it writes"
 
 
 def _kw(call, name):
@@ -302,6 +369,15 @@ def check_sym(project: Project, rep):
             m = n.targets[0].value.id
             v = n.value
             idx_t = ast.unparse(expand_locals(f, n.targets[0].slice))
+            verdict = _tri_copy(project, fi, locs, f, n, m)
+            if verdict is not None:
+                kind, why = verdict
+                copied.add(m)
+                if kind == "ok":
+                    rep.discharged("GH-SYM", fi, n, why)
+                else:
+                    rep.refuted("GH-SYM", fi, n, why, construct=f"{fi.qualname}: symmetrisation of {m}")
+                continue
             if isinstance(v, ast.Subscript) and isinstance(v.value, ast.Attribute) and v.value.attr == "T" \
                     and isinstance(v.value.value, ast.Name) and "tril_indices" in idx_t:
                 if v.value.value.id == m and ast.unparse(expand_locals(f, v.slice)) == idx_t:
